@@ -92,7 +92,7 @@ package tmi
 // ---- position changes (C04): voting height is committing height + 1, rounds move forward ----
 
 //@ func kState.incrementVotingRound
-//@   property C04 C11 C01 C05
+//@   property C04 C11 C01 C05 C06
 //@   requires s.NextRound.Height == s.Voting.Height && s.NextRound.Round == s.Voting.Round + 1
 //@   requires s.Voting.Round < MAXU32 - 1 && s.NextRound.Version < MAXU32 && s.Voting.Version < MAXU32
 //@   ensures height-kept: s.Voting.Height == old(s.Voting.Height) && s.NextRound.Height == old(s.Voting.Height)
@@ -105,6 +105,10 @@ package tmi
 //@       (forall h string :: {rawdom(s.NextRound.PrecommitProofs)[h]} !(h in s.NextRound.PrecommitProofs)) && (forall h string :: {rawdom(s.NextRound.PrevoteProofs)[h]} !(h in s.NextRound.PrevoteProofs)) &&
 //@       s.NextRound.ValidatorSet == old(s.Voting.ValidatorSet) && s.NextRound.VoteSummary.AvailablePower == old(s.Voting.VoteSummary.AvailablePower) &&
 //@       s.NextRound.VoteSummary.PrecommitBlockPower == old(s.Voting.VoteSummary.PrecommitBlockPower) && s.NextRound.VoteSummary.PrevoteBlockPower == old(s.Voting.VoteSummary.PrevoteBlockPower)
+//@   ensures next-round-summary-reset: (forall h string :: {rawdom(s.NextRound.VoteSummary.PrecommitBlockPower)[h]} !(h in s.NextRound.VoteSummary.PrecommitBlockPower)) &&
+//@       (forall h string :: {rawdom(s.NextRound.VoteSummary.PrevoteBlockPower)[h]} !(h in s.NextRound.VoteSummary.PrevoteBlockPower)) &&
+//@       s.NextRound.VoteSummary.TotalPrevotePower == 0 && s.NextRound.VoteSummary.TotalPrecommitPower == 0 &&
+//@       s.NextRound.VoteSummary.MostVotedPrevoteHash == "" && s.NextRound.VoteSummary.MostVotedPrecommitHash == ""
 //@   ensures committing-kept: s.Committing.Height == old(s.Committing.Height) && s.Committing.Round == old(s.Committing.Round)
 //@   ensures valset-kept: s.Voting.ValidatorSet == old(s.NextRound.ValidatorSet) && s.NextRound.ValidatorSet == old(s.Voting.ValidatorSet)
 //@   ensures version-bump: s.Voting.Version == old(s.NextRound.Version) + 1 && s.NextRound.Version == 1
@@ -113,7 +117,7 @@ package tmi
 //@       old(s.Voting.VoteSummary.PrevoteBlockPower)[*], old(s.Voting.VoteSummary.PrecommitBlockPower)[*], old(s.Voting.ProposedHeaders)[*]
 
 //@ func kState.AdvanceVotingRound
-//@   property C04 C11 C01 C05
+//@   property C04 C11 C01 C05 C06
 //@   requires s.NextRound.Height == s.Voting.Height && s.NextRound.Round == s.Voting.Round + 1
 //@   requires s.Voting.Round < MAXU32 - 1 && s.NextRound.Version < MAXU32 && s.Voting.Version < MAXU32
 //@   ensures height-kept: s.Voting.Height == old(s.Voting.Height) && s.NextRound.Height == old(s.Voting.Height)
@@ -126,6 +130,10 @@ package tmi
 //@       (forall h string :: {rawdom(s.NextRound.PrecommitProofs)[h]} !(h in s.NextRound.PrecommitProofs)) && (forall h string :: {rawdom(s.NextRound.PrevoteProofs)[h]} !(h in s.NextRound.PrevoteProofs)) &&
 //@       s.NextRound.ValidatorSet == old(s.Voting.ValidatorSet) && s.NextRound.VoteSummary.AvailablePower == old(s.Voting.VoteSummary.AvailablePower) &&
 //@       s.NextRound.VoteSummary.PrecommitBlockPower == old(s.Voting.VoteSummary.PrecommitBlockPower) && s.NextRound.VoteSummary.PrevoteBlockPower == old(s.Voting.VoteSummary.PrevoteBlockPower)
+//@   ensures next-round-summary-reset: (forall h string :: {rawdom(s.NextRound.VoteSummary.PrecommitBlockPower)[h]} !(h in s.NextRound.VoteSummary.PrecommitBlockPower)) &&
+//@       (forall h string :: {rawdom(s.NextRound.VoteSummary.PrevoteBlockPower)[h]} !(h in s.NextRound.VoteSummary.PrevoteBlockPower)) &&
+//@       s.NextRound.VoteSummary.TotalPrevotePower == 0 && s.NextRound.VoteSummary.TotalPrecommitPower == 0 &&
+//@       s.NextRound.VoteSummary.MostVotedPrevoteHash == "" && s.NextRound.VoteSummary.MostVotedPrecommitHash == ""
 //@   ensures version-bump: s.Voting.Version == old(s.NextRound.Version) + 1 && s.NextRound.Version == 1
 //@   ensures committing-kept: s.Committing.Height == old(s.Committing.Height) && s.Committing.Round == old(s.Committing.Round)
 //@   ensures nil-voted-round-retained: s.GossipViewManager.NilVotedRound != nil &&
@@ -137,7 +145,7 @@ package tmi
 //@       s.GossipViewManager.NilVotedRound, s.GossipViewManager.pendingRoundSessionChanges, s.GossipViewManager.pendingRoundSessionChanges[*], s.GossipViewManager.inGrace[*]
 
 //@ func kState.JumpVotingRound
-//@   property C04 C11 C01 C05
+//@   property C04 C11 C01 C05 C06
 //@   requires s.NextRound.Height == s.Voting.Height && s.NextRound.Round == s.Voting.Round + 1
 //@   requires s.Voting.Round < MAXU32 - 1 && s.NextRound.Version < MAXU32 && s.Voting.Version < MAXU32
 //@   ensures height-kept: s.Voting.Height == old(s.Voting.Height) && s.NextRound.Height == old(s.Voting.Height)
@@ -150,6 +158,10 @@ package tmi
 //@       (forall h string :: {rawdom(s.NextRound.PrecommitProofs)[h]} !(h in s.NextRound.PrecommitProofs)) && (forall h string :: {rawdom(s.NextRound.PrevoteProofs)[h]} !(h in s.NextRound.PrevoteProofs)) &&
 //@       s.NextRound.ValidatorSet == old(s.Voting.ValidatorSet) && s.NextRound.VoteSummary.AvailablePower == old(s.Voting.VoteSummary.AvailablePower) &&
 //@       s.NextRound.VoteSummary.PrecommitBlockPower == old(s.Voting.VoteSummary.PrecommitBlockPower) && s.NextRound.VoteSummary.PrevoteBlockPower == old(s.Voting.VoteSummary.PrevoteBlockPower)
+//@   ensures next-round-summary-reset: (forall h string :: {rawdom(s.NextRound.VoteSummary.PrecommitBlockPower)[h]} !(h in s.NextRound.VoteSummary.PrecommitBlockPower)) &&
+//@       (forall h string :: {rawdom(s.NextRound.VoteSummary.PrevoteBlockPower)[h]} !(h in s.NextRound.VoteSummary.PrevoteBlockPower)) &&
+//@       s.NextRound.VoteSummary.TotalPrevotePower == 0 && s.NextRound.VoteSummary.TotalPrecommitPower == 0 &&
+//@       s.NextRound.VoteSummary.MostVotedPrevoteHash == "" && s.NextRound.VoteSummary.MostVotedPrecommitHash == ""
 //@   ensures version-bump: s.Voting.Version == old(s.NextRound.Version) + 1 && s.NextRound.Version == 1
 //@   ensures committing-kept: s.Committing.Height == old(s.Committing.Height) && s.Committing.Round == old(s.Committing.Round)
 //@   ensures jump-ahead-delivered: old(s.StateMachineViewManager.roundEntrance.H) == old(s.Voting.Height) && old(s.StateMachineViewManager.roundEntrance.R) == old(s.Voting.Round) ==>
@@ -254,6 +266,10 @@ package tmi
 //@       (forall h string :: {rawdom(s.NextRound.PrecommitProofs)[h]} !(h in s.NextRound.PrecommitProofs)) && (forall h string :: {rawdom(s.NextRound.PrevoteProofs)[h]} !(h in s.NextRound.PrevoteProofs)) &&
 //@       s.NextRound.ValidatorSet == old(s.Voting.ValidatorSet) && s.NextRound.VoteSummary.AvailablePower == old(s.Voting.VoteSummary.AvailablePower) &&
 //@       s.NextRound.VoteSummary.PrecommitBlockPower == old(s.Voting.VoteSummary.PrecommitBlockPower) && s.NextRound.VoteSummary.PrevoteBlockPower == old(s.Voting.VoteSummary.PrevoteBlockPower)
+//@   ensures next-round-summary-reset: (forall h string :: {rawdom(s.NextRound.VoteSummary.PrecommitBlockPower)[h]} !(h in s.NextRound.VoteSummary.PrecommitBlockPower)) &&
+//@       (forall h string :: {rawdom(s.NextRound.VoteSummary.PrevoteBlockPower)[h]} !(h in s.NextRound.VoteSummary.PrevoteBlockPower)) &&
+//@       s.NextRound.VoteSummary.TotalPrevotePower == 0 && s.NextRound.VoteSummary.TotalPrecommitPower == 0 &&
+//@       s.NextRound.VoteSummary.MostVotedPrevoteHash == "" && s.NextRound.VoteSummary.MostVotedPrecommitHash == ""
 //@   ensures version-bump: s.Voting.Version == old(s.NextRound.Version) + 1 && s.NextRound.Version == 1
 //@   ensures committing-kept: s.Committing.Height == old(s.Committing.Height) && s.Committing.Round == old(s.Committing.Round)
 //@   ensures jump-ahead-delivered: old(s.StateMachineViewManager.roundEntrance.H) == old(s.Voting.Height) && old(s.StateMachineViewManager.roundEntrance.R) == old(s.Voting.Round) ==>
@@ -284,6 +300,10 @@ package tmi
 //@       (forall h string :: {rawdom(s.NextRound.PrecommitProofs)[h]} !(h in s.NextRound.PrecommitProofs)) && (forall h string :: {rawdom(s.NextRound.PrevoteProofs)[h]} !(h in s.NextRound.PrevoteProofs)) &&
 //@       s.NextRound.ValidatorSet == old(s.Voting.ValidatorSet) && s.NextRound.VoteSummary.AvailablePower == old(s.Voting.VoteSummary.AvailablePower) &&
 //@       s.NextRound.VoteSummary.PrecommitBlockPower == old(s.Voting.VoteSummary.PrecommitBlockPower) && s.NextRound.VoteSummary.PrevoteBlockPower == old(s.Voting.VoteSummary.PrevoteBlockPower)
+//@   ensures next-round-summary-reset: (forall h string :: {rawdom(s.NextRound.VoteSummary.PrecommitBlockPower)[h]} !(h in s.NextRound.VoteSummary.PrecommitBlockPower)) &&
+//@       (forall h string :: {rawdom(s.NextRound.VoteSummary.PrevoteBlockPower)[h]} !(h in s.NextRound.VoteSummary.PrevoteBlockPower)) &&
+//@       s.NextRound.VoteSummary.TotalPrevotePower == 0 && s.NextRound.VoteSummary.TotalPrecommitPower == 0 &&
+//@       s.NextRound.VoteSummary.MostVotedPrevoteHash == "" && s.NextRound.VoteSummary.MostVotedPrecommitHash == ""
 //@   ensures version-bump: s.Voting.Version == old(s.NextRound.Version) + 1 && s.NextRound.Version == 1
 //@   ensures committing-kept: s.Committing.Height == old(s.Committing.Height) && s.Committing.Round == old(s.Committing.Round)
 //@   ensures nil-voted-round-retained: s.GossipViewManager.NilVotedRound != nil &&
@@ -311,7 +331,9 @@ package tmi
 //@     (forall h string :: {rawdom(v.PrecommitProofs)[h]} h in v.PrecommitProofs ==> precommitOK(v, h))
 // SepInv: the voting and next-round views do not share their vote maps (resetting one must not clear the other).
 //@ define SepInv(s) = s.Voting.PrecommitProofs != s.NextRound.PrecommitProofs && s.Voting.PrecommitProofs != s.NextRound.PrevoteProofs &&
-//@     s.Voting.PrevoteProofs != s.NextRound.PrevoteProofs && s.Voting.PrevoteProofs != s.NextRound.PrecommitProofs
+//@     s.Voting.PrevoteProofs != s.NextRound.PrevoteProofs && s.Voting.PrevoteProofs != s.NextRound.PrecommitProofs &&
+//@     s.Voting.VoteSummary.PrecommitBlockPower != s.NextRound.VoteSummary.PrecommitBlockPower && s.Voting.VoteSummary.PrecommitBlockPower != s.NextRound.VoteSummary.PrevoteBlockPower &&
+//@     s.Voting.VoteSummary.PrevoteBlockPower != s.NextRound.VoteSummary.PrevoteBlockPower && s.Voting.VoteSummary.PrevoteBlockPower != s.NextRound.VoteSummary.PrecommitBlockPower
 // powerOK: the vote summary's per-target precommit power is the power of the signers recorded in the proofs.
 //@ define powerOK(v) = (forall h string :: {rawdom(v.PrecommitProofs)[h]} h in v.PrecommitProofs ==>
 //@     (h in v.VoteSummary.PrecommitBlockPower) && v.VoteSummary.PrecommitBlockPower[h] == psum(v.ValidatorSet.Validators, pbits(mapvals(v.PrecommitProofs)[h]), len(v.ValidatorSet.Validators))) &&
@@ -411,3 +433,44 @@ package tmi
 //@ chaninv AddPrevoteRequest.Response(v): currentVoteAnswer(v)
 //@ chaninv AddFuturePrevoteRequest.Resp(v): futureVoteAnswer(v)
 //@ chaninv AddFuturePrecommitRequest.Resp(v): futureVoteAnswer(v)
+
+// ---- fetch requests for missing proposed headers: no effect on views or stores (frame for C01/C05), no panic (C09) ----
+//@ func newVoteDistribution
+//@   property C09 C06
+//@   option nowrap off
+//@   requires forall h string :: {rawdom(proofs)[h]} h in proofs ==> mapvals(proofs)[h] != nil
+//@   requires psum(vals, allbits(), len(vals)) <= MAXU64
+//@   ensures result.BlockVotePower != nil && fresh(result.BlockVotePower)
+//@   ensures available-is-total: result.AvailableVotePower == psum(vals, allbits(), len(vals))
+//@   modifies nothing
+//@   loop 1 invariant maps-private: d.BlockVotePower != nil && fresh(d.BlockVotePower) && valsByKey != nil && fresh(valsByKey)
+//@   loop 1 invariant available-so-far: 0 <= rangeindex + 1 && rangeindex + 1 <= len(vals) && d.AvailableVotePower == psum(vals, allbits(), rangeindex + 1)
+//@   loop 2 invariant available-kept: d.AvailableVotePower == psum(vals, allbits(), len(vals))
+//@   loop 3 invariant available-kept: d.AvailableVotePower == psum(vals, allbits(), len(vals))
+//@   loop 2 invariant maps-private: d.BlockVotePower != nil && fresh(d.BlockVotePower)
+//@   loop 3 invariant maps-private: d.BlockVotePower != nil && fresh(d.BlockVotePower)
+//@   loop 3 invariant in-range: ok ==> i < MAXINT
+
+//@ func Kernel.checkMissingPHs
+//@   property C09 C05
+//@   requires len(proofs) >= 1 && s.InFlightFetchPHs != nil && k.phf.FetchRequests != nil
+//@   requires forall h string :: {rawdom(proofs)[h]} h in proofs ==> mapvals(proofs)[h] != nil
+//@   requires psum(s.Voting.ValidatorSet.Validators, allbits(), len(s.Voting.ValidatorSet.Validators)) > 0
+//@   requires psum(s.Voting.ValidatorSet.Validators, allbits(), len(s.Voting.ValidatorSet.Validators)) <= MAXU64
+//@   modifies s.InFlightFetchPHs[*]
+//@   loop 2 invariant missing-is-private: fresh(missingPHs)
+//@   loop 3 invariant missing-is-private: fresh(missingPHs)
+
+// ---- next-round votes reaching the minority threshold make the kernel jump to that round ----
+//@ define kernelReady(k, s) = k.store != nil && k.hStore != nil && k.rStore != nil && s.GossipViewManager.inGrace != nil && s.InFlightFetchPHs != nil && k.phf.FetchRequests != nil &&
+//@     (s.StateMachineViewManager.roundEntrance.H == s.Committing.Height ==> !chanclosed(s.StateMachineViewManager.roundEntrance.HeightCommitted))
+
+//@ func Kernel.checkNextRoundPrecommitViewShift
+//@   property C09
+//@   requires KInv(s) && KBounds(s) && SepInv(s) && VInv(s.Voting) && VInv(s.NextRound) && powerOK(s.NextRound) && kernelReady(k, s)
+//@   requires most-voted-instance: (s.NextRound.VoteSummary.MostVotedPrecommitHash in s.NextRound.VoteSummary.PrecommitBlockPower) ==>
+//@       (s.NextRound.VoteSummary.MostVotedPrecommitHash in s.NextRound.PrecommitProofs)
+//@   ensures position: s.Voting.Height == old(s.Voting.Height) && (s.Voting.Round == old(s.Voting.Round) || s.Voting.Round == old(s.Voting.Round) + 1) &&
+//@       s.Committing.Height == old(s.Committing.Height) && s.Committing.Round == old(s.Committing.Round)
+//@   ensures inv-kept: result == nil ==> KInv(s) && VInv(s.Voting) && VInv(s.NextRound) && SepInv(s)
+//@   modifies memory except Kernel, msvh(0), msvr(0), msch(0), mscr(0)
